@@ -16,6 +16,8 @@ implementation's outputs):
                            when the exact factors fit the pattern (tridiagonal, arrow,
                            iluk with k >= n, ilut with tau = 0 and p >= n)
   tri triangular solve     (I+L)(D^-1+U) x = b for ilu_solve on random strict factors
+spai1 (double build) is compared with the exact least-squares model Spai1.v up to 1e-9; spai0 with
+std::complex<double> against the least-squares minimiser (python reference).
 Case ids carry the oracle kind as prefix (fx.., ex.., lu.., tri..), so a replayed case re-runs its oracle.
 """
 import random
@@ -35,7 +37,8 @@ ASSUMPTIONS = [
     "builtin backend instantiated with vq::Q runs the same template code as with double; double/float parameters are dyadic and converted exactly",
     "ILU-type smoothers are exercised on matrices with sorted rows and a structurally full diagonal (their documented precondition); unsorted input through as_preconditioner is property C17",
     "chebyshev: power_iters = 0 (Gershgorin); the power-method estimate is an input of the model (RNG + sqrt), not compared here",
-    "ilut: cases in which the p-largest cut of std::nth_element goes through a tie of magnitudes are skipped (result implementation-defined); spai1 (Householder QR in pseudo-sqrt arithmetic) is not compared exactly",
+    "ilut: cases in which the p-largest cut of std::nth_element goes through a tie of magnitudes are skipped (result implementation-defined)",
+    "spai1: Householder QR needs a true square root, so spai1.hpp is run in the double build (dyadic, diagonally dominant inputs) and compared with the exact least-squares model (normal equations solved by DenseSolve.dense_solve) up to a relative tolerance 1e-9 -- tested, not an exact tie",
     "gauss_seidel with params.serial = true and ilu_solve with params.serial = true; the level-scheduled variants belong to C09",
 ]
 RULE = ("cases derived from VERIF_SEED by tools/props/C06.py; distinct = distinct case payload; non-trivial = "
@@ -57,7 +60,7 @@ class Toks:
             rows.append([(self.i(), self.q()) for _ in range(self.i())])
         return n, m, rows
 
-NPARAM = {"jacobi": 1, "spai0": 0, "gs": 0, "cheby": 4, "ilu0": 1, "iluk": 2, "ilup": 2, "ilut": 3}
+NPARAM = {"jacobi": 1, "spai0": 0, "spai1": 0, "gs": 0, "cheby": 4, "ilu0": 1, "iluk": 2, "ilup": 2, "ilut": 3}
 FPARAM = {"ilu0_factors": 0, "iluk_factors": 1, "ilup_factors": 1, "ilut_factors": 2}
 
 def parse_case(line):
@@ -110,14 +113,22 @@ def matrices(r, tier):
     big = 22 if tier == "quick" else 32
     for it in range(N):
         n = r.choice([1, 2, 3, 4, 5, 6, 8, 10]) if it % 7 else r.randint(10, big)
-        fam = r.choice(["spd", "spd", "nonsym", "nonsym", "tridiag", "arrow", "pattern", "pattern_sym", "nodom"])
+        fam = r.choice(["spd", "spd", "nonsym", "nonsym", "tridiag", "arrow", "pattern", "pattern_sym", "nodom",
+                        "upper", "lower"])
         if fam == "spd": rows = gen.spd_mmatrix(r, n)
         elif fam == "nonsym": rows = gen.nonsym_dd(r, n, density=r.choice([0.2, 0.4, 0.6]))
         elif fam == "tridiag": rows = gen.tridiag(r, n)
         elif fam == "arrow": rows = gen.arrow(r, n)
         elif fam == "pattern": rows = gen.full_diag_pattern(r, n, density=r.choice([0.15, 0.3, 0.5]))
         elif fam == "pattern_sym": rows = gen.full_diag_pattern(r, n, density=r.choice([0.15, 0.3]), sym_pattern=True)
+        elif fam in ("upper", "lower"):
+            # triangular: the diagonal is the first (upper) / last (lower) entry of every row
+            rows = gen.full_diag_pattern(r, n, density=r.choice([0.3, 0.6]))
+            rows = [[(c, v) for c, v in rw if (c >= i if fam == "upper" else c <= i)] for i, rw in enumerate(rows)]
         else: rows = gen.full_diag_pattern(r, n, density=r.choice([0.2, 0.4]), dominant=False)
+        if r.random() < 0.3:
+            # explicit zero entries (stored zeros) off the diagonal
+            rows = [[(c, (F(0) if (c != i and r.random() < 0.3) else v)) for c, v in rw] for i, rw in enumerate(rows)]
         yield fam, n, rows
 
 def small_patterns(r, tier):
@@ -192,10 +203,22 @@ def cases(tier, seed):
             for mode in ("pre", "post"):
                 add("fx", op, " ".join([mode, pf(), A, fmt_vec(fx_rhs), fmt_vec(xs)]))
         add("lu0", "ilu0_factors", A)
-        for k in (0, 1, 2):
+        for k in (0, 1, 2, n):
             add("luk", "iluk_factors", "%d %s" % (k, A))
-        for k in (1, 2):
+        for k in (0, 1, 2):
             add("lup", "ilup_factors", "%d %s" % (k, A))
+        # every case-split boundary of the sweeps, damping != 1 for every ILU variant
+        dnz = [F(1, 2), F(3, 4), F(18, 25), F(5, 4)]
+        for k in (0, 1, 2, n):
+            add("c", "iluk", " ".join([r.choice(["pre", "post"]), "%d %s" % (k, fmt_q(r.choice(dnz))), A, fmt_vec(rhs), fmt_vec(x0)]))
+        for k in (0, 1, 2):
+            add("c", "ilup", " ".join([r.choice(["pre", "post"]), "%d %s" % (k, fmt_q(r.choice(dnz))), A, fmt_vec(rhs), fmt_vec(x0)]))
+        add("c", "ilu0", " ".join([r.choice(["pre", "post"]), fmt_q(r.choice(dnz)), A, fmt_vec(rhs), fmt_vec(x0)]))
+        add("c", "ilut", " ".join([r.choice(["pre", "post"]), "2 1/100 " + fmt_q(r.choice(dnz)), A, fmt_vec(rhs), fmt_vec(x0)]))
+        for deg in (1, 2, 3, 5):
+            for sc_ in (0, 1):
+                add("c", "cheby", " ".join([r.choice(["pre", "post", "apply"]), "%d %s %s %d" % (deg, fmt_q(r.choice([F(1, 32), F(1, 4)])),
+                    fmt_q(r.choice([F(1), F(9, 8)])), sc_), Av, fmt_vec(rhs), fmt_vec(x0)]))
         add("c", "ilut_factors", "%s %s %s" % (fmt_q(r.choice([F(1), F(3, 2), F(2), F(3)])), fmt_q(r.choice([F(0), F(1, 100), F(1, 8)])), A))
         # exact inverse cases
         full = [("iluk", "%d 1" % kbig)]
@@ -210,6 +233,9 @@ def cases(tier, seed):
         # the triangular solver alone
         L = gen.strict_tri(r, n, True); U = gen.strict_tri(r, n, False); D = gen.rvec(r, n, nz=True)
         add("tri", "ilu_solve", " ".join([fmt_crs(n, n, L), fmt_crs(n, n, U), fmt_vec(D), fmt_vec(rhs)]))
+    for _ in range(20 if tier == "quick" else 150):
+        n = r.choice([1, 2, 3, 5, 8]); rows = gen.rcrs(r, n, n, dups=(r.random() < 0.3))
+        add("c", "gersh", "1 " + fmt_crs(n, n, rows)); add("c", "gersh", "0 " + fmt_crs(n, n, rows))
     # small exhaustive patterns: factors of every ILU variant
     for n, rows in small_patterns(r, tier):
         A = fmt_crs(n, n, rows)
@@ -288,7 +314,9 @@ def run(ctx, cases_override=None):
     lines = cases_override or cases(ctx["tier"], ctx["seed"])
     fails = []
     zlines = [l for l in lines if l.split(" ", 2)[1] == "spai0_cplx"]
-    lines = [l for l in lines if l.split(" ", 2)[1] != "spai0_cplx"]
+    slines = [l for l in lines if l.split(" ", 2)[1] in ("spai1", "spai1_m")]
+    lines = [l for l in lines if l.split(" ", 2)[1] not in ("spai0_cplx", "spai1", "spai1_m")]
+    fails += spai1_run(ctx, slines if cases_override else None)
     # complex value type: SPAI-0 against the row-wise least-squares minimiser conj(a_ii)/sum|a_ij|^2
     # (std::complex<double>; python reference, tolerance 1e-12; no Coq instance for complex numbers)
     fails += complex_spai0(ctx, zlines if cases_override else None)
@@ -316,6 +344,67 @@ def run(ctx, cases_override=None):
         oid = x["oracle"]["line"].split(" ", 1)[0]
         x["theorem"] = th.get(oid, "C06 oracle")
     fails += of
+    return fails
+
+
+def spai1_cases(tier, seed):
+    """dyadic, diagonally dominant matrices (well conditioned normal equations), sorted or shuffled rows"""
+    r = random.Random(seed * 1000 + 61); out = []
+    DY = [F(k, d) for k in range(-6, 7) for d in (1, 2, 4) if k != 0]
+    for k in range(25 if tier == "quick" else 200):
+        n = r.choice([1, 2, 3, 4, 6, 9, 12])
+        rows = []
+        for i in range(n):
+            rw = {j: r.choice(DY) for j in range(n) if j != i and r.random() < r.choice([0.2, 0.4])}
+            rw[i] = sum(abs(v) for v in rw.values()) + r.choice([1, 2, 3])
+            it = sorted(rw.items())
+            if r.random() < 0.3: r.shuffle(it)
+            rows.append(it)
+        A = fmt_crs(n, n, rows)
+        xs = [r.choice(DY) for _ in range(n)]; rhs = [r.choice(DY) for _ in range(n)]; x0 = [r.choice(DY) for _ in range(n)]
+        out.append("s%da spai1_m %s" % (k, A))
+        for mode in ("pre", "post", "apply", "asprec"):
+            out.append("s%d%s spai1 %s %s %s %s" % (k, mode, mode, A, fmt_vec(rhs), fmt_vec(x0)))
+        out.append("sfx%d spai1 pre %s %s %s" % (k, A, fmt_vec(gen.matvec(rows, xs)), fmt_vec(xs)))
+    return out
+
+def spai1_run(ctx, lines=None):
+    """spai1.hpp (double, Householder QR) against the exact least-squares model, relative tolerance 1e-9"""
+    lines = lines if lines is not None else spai1_cases(ctx["tier"], ctx["seed"])
+    if not lines: return []
+    dl = []
+    for l in lines:
+        cid, op, rest = l.split(" ", 2); dl.append("%s d.%s %s" % (cid, op, rest))
+    impl = ctx["run_driver"](ctx["cpp"]["relax"], dl, env_extra={"OMP_NUM_THREADS": "1"})
+    model = ctx["run_driver"](ctx["model"], lines)
+    fails = []
+    def nums(s_):
+        import re
+        return [F(x) for x in re.findall(r"(?::|\[|\s)(-?\d+(?:/\d+)?)(?=[\s\]\}|])", " " + s_)]
+    def shape(s_):
+        import re
+        return re.sub(r"-?\d+(?:/\d+)?(?=[\s\]\}])", "#", re.sub(r":-?\d+(?:/\d+)?", ":#", s_))
+    for l in lines:
+        cid, op = l.split(" ", 2)[:2]
+        a, b = impl.get(cid) or "", model.get(cid) or ""
+        ctx["stats"]["evaluations"] += 1; ctx["stats"]["by_op"]["d." + op] = ctx["stats"]["by_op"].get("d." + op, 0) + 1
+        if b.startswith("EXC singular"): continue
+        ok = False
+        try:
+            va, vb = nums(a), nums(b)
+            ok = (shape(a) == shape(b) and len(va) == len(vb) and
+                  all(abs(x - y) <= F(1, 10 ** 9) * max(1, abs(y)) for x, y in zip(va, vb)))
+            if ok and any(y != 0 for y in vb): ctx["stats"]["nontrivial"] += 1
+            if ok and cid.startswith("sfx"):
+                xs = parse_case("x spai0 pre " + l.split(" ", 3)[3])["x"]
+                ctx["stats"]["oracle_checks"] += 1
+                ok = all(abs(x - y) <= F(1, 10 ** 9) * max(1, abs(y)) for x, y in zip(parse_out_vec(a), xs))
+        except Exception:
+            ok = False
+        if not ok:
+            ctx["stats"]["mismatches"] += 1
+            fails.append(dict(kind="counterexample", case=l, impl=a[:2000], model=b[:2000], op=op, size=len(l),
+                theorem="spai1 (double build, tolerance 1e-9) vs exact least-squares model Spai1.v (%s)" % op))
     return fails
 
 
